@@ -666,6 +666,8 @@ fn configure_hooks(case: &Case) {
             .unwrap_or(0),
     );
     mv::set_trace(flag("trace"));
+    yarel::vm::verif::set_dispatch_monitor(flag("dispatch"));
+    let _ = yarel::vm::verif::take_dispatch_stats();
     if default_mode {
         // start from the pacing state of a fresh heap
         mv::force_collect();
@@ -742,6 +744,15 @@ fn finish_hooks(case: &Case, out: &mut String) {
         let _ = write!(out, ":{}", n);
     }
     out.push('}');
+    if flag("dispatch") {
+        let d = yarel::vm::verif::take_dispatch_stats();
+        let _ = write!(
+            out,
+            ",\"dispatch\":{{\"dispatched\":{},\"chunks\":{},\"instructions\":{},\"distinct_executed\":{},\"handler_targets\":{}}}",
+            d.dispatched, d.chunks_seen, d.instructions_in_seen_chunks, d.distinct_offsets_executed, d.handler_targets
+        );
+    }
+    yarel::vm::verif::set_dispatch_monitor(false);
     mv::set_quarantine(false);
     mv::set_audit_every(0);
     mv::set_trace(false);
